@@ -227,13 +227,17 @@ theorem Context.add_ne_nil (c : Context) (sym : Sym) (b : Bool) (hc : c ≠ []) 
 theorem Context.remove_length (c : Context) (x : Str) : (Context.remove c x).length = c.length := by
   cases c <;> simp [Context.remove]
 
-theorem Context.foldl_add_length (names : List Str) (c : Context) (hc : c ≠ []) :
-    (names.foldl (fun c n => Context.add c (Context.nameSym n)) c).length = c.length := by
+theorem Context.foldl_add_length_flag (b : Bool) (names : List Str) (c : Context) (hc : c ≠ []) :
+    (names.foldl (fun c n => Context.add c (Context.nameSym n) b) c).length = c.length := by
   induction names generalizing c with
   | nil => rfl
   | cons n r ih =>
     simp only [List.foldl_cons]
     rw [ih _ (Context.add_ne_nil c _ _ hc), Context.add_length c hc]
+
+theorem Context.foldl_add_length (names : List Str) (c : Context) (hc : c ≠ []) :
+    (names.foldl (fun c n => Context.add c (Context.nameSym n)) c).length = c.length :=
+  Context.foldl_add_length_flag false names c hc
 
 theorem Context.foldl_remove_length (names : List Str) (c : Context) :
     (names.foldl (fun c n => Context.remove c n) c).length = c.length := by
@@ -252,7 +256,7 @@ theorem StLe.ctxAdd (s : St) (sym : Sym) (b : Bool) :
 
 theorem addArguments_ctx_length (s : St) (ps : Params) (h : s.ctx ≠ []) :
     (addArguments s ps).ctx.length = s.ctx.length :=
-  Context.foldl_add_length _ _ h
+  Context.foldl_add_length_flag true _ _ h
 
 theorem StLe.addArguments (s : St) (ps : Params) : StLe s (addArguments s ps) :=
   ⟨IrLe.of_eq rfl rfl rfl rfl, fun h => addArguments_ctx_length s ps h⟩
@@ -542,7 +546,7 @@ theorem visit_mono (env : Env) (mn : Str) : ∀ (n : Node) (s : St), Mono s (vis
       exact Mono.weaken h (Mono.bind (visit_mono env mn t s₁) fun s₂ => visit_mono env mn v s₂)
   | .delete targets, s => by
     rw [visit]
-    exact Mono.bind (Mono.removeIdentifiersL _ _) fun s₁ => visitList_mono env mn targets s₁
+    exact Mono.bind (visitList_mono env mn targets s) fun s₁ => Mono.removeIdentifiersL _ _
   | .forLoop t iter body orelse, s => by
     rw [visit]
     exact Mono.bind (Mono.addIdentifiers _ _) fun s₁ => Mono.bind (visit_mono env mn t s₁)
